@@ -31,7 +31,7 @@ ASSUMPTIONS = [
 
 def budget(tier):
     if tier == 'thorough':
-        return {'seeds': 180000, 'wall': 900, 'chunk': 100}
+        return {'seeds': 110000, 'wall': 900, 'chunk': 100}
     return {'seeds': 12000, 'wall': 200, 'chunk': 50}
 
 
